@@ -261,6 +261,15 @@ Error RACFGBuilder::on_instruction(InstNode* inst, InstControlFlow& cf, RAInstBu
               }
             }
 
+            // Do not use RegMem flag if the memory form has different semantics - BT|BTC|BTR|BTS with a bit offset in
+            // a register address a bit string when the first operand is memory (the offset is not taken modulo the
+            // operand size), so `bt reg, reg` cannot be replaced by `bt [home], reg`.
+            if (i == 0u && operands.size() == 2u && operands[1].is_reg() && Support::test(flags, RATiedFlags::kUseRM | RATiedFlags::kOutRM)) {
+              if (inst_id == Inst::kIdBt || inst_id == Inst::kIdBtc || inst_id == Inst::kIdBtr || inst_id == Inst::kIdBts) {
+                flags &= ~(RATiedFlags::kUseRM | RATiedFlags::kOutRM);
+              }
+            }
+
             // Do not use RegMem flag if the instruction writes the register and zero extends it beyond the size of the
             // memory operand - the memory form would leave the rest of the virtual register's home slot unchanged. For
             // example `add eax, ecx` clears the high 32 bits of a 64-bit virtual register, `add dword [home], ecx` doesn't.
